@@ -61,6 +61,16 @@ template <class T> struct F1 : public VATA::MTBDDPkg::Apply1Functor<F1<T>, T, T>
 template <class T> struct F2 : public VATA::MTBDDPkg::Apply2Functor<F2<T>, T, T, T> { long f; explicit F2(long ff) : f(ff) {} T ApplyOperation(const T& a, const T& b) { return Leaf<T>::to(leaf_fn(f, Leaf<T>::from(a), Leaf<T>::from(b))); } };
 template <class T> struct F3 : public VATA::MTBDDPkg::Apply3Functor<F3<T>, T, T, T, T> { long f; explicit F3(long ff) : f(ff) {} T ApplyOperation(const T& a, const T& b, const T& c) { return Leaf<T>::to(leaf_fn(f, Leaf<T>::from(a), Leaf<T>::from(b), Leaf<T>::from(c))); } };
 
+// Functor objects are long-lived and reused (as client code and the library's own users do): one per leaf
+// function and leaf type.  Their memo tables are keyed by node addresses, so reuse across calls is exactly
+// where a missing cache reset meets address reuse.
+template <class T> std::map<long, std::unique_ptr<F1<T>>>& f1_pool() { static std::map<long, std::unique_ptr<F1<T>>> m; return m; }
+template <class T> std::map<long, std::unique_ptr<F2<T>>>& f2_pool() { static std::map<long, std::unique_ptr<F2<T>>> m; return m; }
+template <class T> std::map<long, std::unique_ptr<F3<T>>>& f3_pool() { static std::map<long, std::unique_ptr<F3<T>>> m; return m; }
+template <class T> F1<T>& fn1(long f) { auto& p = f1_pool<T>()[f % 8]; if (!p) p.reset(new F1<T>(f % 8)); return *p; }
+template <class T> F2<T>& fn2(long f) { auto& p = f2_pool<T>()[f % 8]; if (!p) p.reset(new F2<T>(f % 8)); return *p; }
+template <class T> F3<T>& fn3(long f) { auto& p = f3_pool<T>()[f % 8]; if (!p) p.reset(new F3<T>(f % 8)); return *p; }
+
 struct MH {
 	int type = 0;                                   // 0: int leaves, 1: ordered-set leaves
 	std::unique_ptr<OndriksMTBDD<int>> a; std::unique_ptr<OndriksMTBDD<OV>> b;
@@ -166,7 +176,7 @@ void op_apply1(const Step& s) {
 	Fn r; r.k = U; r.v.resize(NT); for (size_t n = 0; n < NT; ++n) r.v[n] = leaf_fn(f, c.h[i].model.v[n]);
 	long d = leaf_fn(f, c.h[i].dflt);
 	api_begin();
-	with_type(type, [&](auto tag) { typedef decltype(tag) T; F1<T> fn(f); OndriksMTBDD<T> m = fn(*slot<T>(c.h[i])); add<T>(c, std::move(m), r, d); });
+	with_type(type, [&](auto tag) { typedef decltype(tag) T; F1<T>& fn = fn1<T>(f); OndriksMTBDD<T> m = fn(*slot<T>(c.h[i])); add<T>(c, std::move(m), r, d); });
 	note_case(mix64(uint64_t(f) + 1000, hash_str(std::string(r.v.begin(), r.v.end()))));
 	after_step(s, "mt_apply1");
 }
@@ -175,7 +185,7 @@ void op_apply2(const Step& s) {
 	Fn r; r.k = U; r.v.resize(NT); for (size_t n = 0; n < NT; ++n) r.v[n] = leaf_fn(f, c.h[i].model.v[n], c.h[j].model.v[n]);
 	long d = leaf_fn(f, c.h[i].dflt, c.h[j].dflt);
 	api_begin();
-	with_type(type, [&](auto tag) { typedef decltype(tag) T; F2<T> fn(f); OndriksMTBDD<T> m = fn(*slot<T>(c.h[i]), *slot<T>(c.h[j])); add<T>(c, std::move(m), r, d); });
+	with_type(type, [&](auto tag) { typedef decltype(tag) T; F2<T>& fn = fn2<T>(f); OndriksMTBDD<T> m = fn(*slot<T>(c.h[i]), *slot<T>(c.h[j])); add<T>(c, std::move(m), r, d); });
 	note_case(mix64(uint64_t(f) + 2000, hash_str(std::string(r.v.begin(), r.v.end()))));
 	after_step(s, "mt_apply2");
 }
@@ -184,7 +194,7 @@ void op_apply3(const Step& s) {
 	Fn r; r.k = U; r.v.resize(NT); for (size_t n = 0; n < NT; ++n) r.v[n] = leaf_fn(f, c.h[i].model.v[n], c.h[j].model.v[n], c.h[k].model.v[n]);
 	long d = leaf_fn(f, c.h[i].dflt, c.h[j].dflt, c.h[k].dflt);
 	api_begin();
-	with_type(type, [&](auto tag) { typedef decltype(tag) T; F3<T> fn(f); OndriksMTBDD<T> m = fn(*slot<T>(c.h[i]), *slot<T>(c.h[j]), *slot<T>(c.h[k])); add<T>(c, std::move(m), r, d); });
+	with_type(type, [&](auto tag) { typedef decltype(tag) T; F3<T>& fn = fn3<T>(f); OndriksMTBDD<T> m = fn(*slot<T>(c.h[i]), *slot<T>(c.h[j]), *slot<T>(c.h[k])); add<T>(c, std::move(m), r, d); });
 	note_case(mix64(uint64_t(f) + 3000, hash_str(std::string(r.v.begin(), r.v.end()))));
 	after_step(s, "mt_apply3");
 }
@@ -199,7 +209,7 @@ void op_project(const Step& s) {
 	for (int var = 0; var < U; ++var) if ((mask >> var) & 1) { Fn t = r; for (size_t n = 0; n < NT; ++n) t.v[n] = leaf_fn(f, r.v[n & ~(size_t(1) << var)], r.v[n | (size_t(1) << var)]); r = t; }
 	long d = c.h[i].dflt;
 	api_begin();
-	with_type(type, [&](auto tag) { typedef decltype(tag) T; F2<T> fn(f); OndriksMTBDD<T> m = slot<T>(c.h[i])->Project([mask](size_t var) { return ((mask >> var) & 1) != 0; }, fn); add<T>(c, std::move(m), r, d); });
+	with_type(type, [&](auto tag) { typedef decltype(tag) T; F2<T>& fn = fn2<T>(f); OndriksMTBDD<T> m = slot<T>(c.h[i])->Project([mask](size_t var) { return ((mask >> var) & 1) != 0; }, fn); add<T>(c, std::move(m), r, d); });
 	note_case(mix64(uint64_t(mask) + 4000, hash_str(std::string(r.v.begin(), r.v.end()))));
 	after_step(s, "mt_project");
 }
@@ -273,6 +283,7 @@ void abort_client(int c, uint64_t seed) {
 }
 
 void final_check() {
+	f1_pool<int>().clear(); f2_pool<int>().clear(); f3_pool<int>().clear(); f1_pool<OV>().clear(); f2_pool<OV>().clear(); f3_pool<OV>().clear();
 	if (!g_base_taken) return;
 	if (armed("C17")) check_all("C17", "<final>", "the end of the run"); else if (armed("C18")) check_all("C18", "<final>", "the end of the run");
 	// destroy everything in a drawn-by-position order, then the store must be back at its baseline
@@ -312,6 +323,26 @@ std::vector<Step> mt_program(Rng& r, int c, int len, int K, bool listed_only, bo
 	return out;
 }
 
+// Many rounds of "build, project with the SAME long-lived functor, drop the operand, keep the result": the
+// functor's memo is keyed by node addresses, the operands' nodes die between the calls and (under immediate
+// reuse) their addresses come back denoting other functions.
+std::vector<Step> mt_project_loop(Rng& r, int c, int rounds, int K) {
+	std::vector<Step> out; int n = 0; long f = long(r.below(2));
+	for (int i = 0; i < rounds; ++i) {
+		int parts = r.range(1, 3);
+		out.push_back(gen::mk(c, "mt_make", {0, long(1 + r.below(6)), long(r.below(2))}, rand_asgn(r, K))); ++n;
+		for (int k = 1; k < parts; ++k) {
+			out.push_back(gen::mk(c, "mt_make", {0, long(1 + r.below(6)), long(r.below(2))}, rand_asgn(r, K))); ++n;
+			out.push_back(gen::mk(c, "mt_apply2", {n - 2, n - 1, 1, 0})); ++n;                         // max: the pooled functor is shared with Project
+			out.push_back(gen::mk(c, "mt_destroy", {n - 2, 0})); --n; out.push_back(gen::mk(c, "mt_destroy", {n - 2, 0})); --n;
+		}
+		out.push_back(gen::mk(c, "mt_project", {n - 1, long(1 + r.below((1u << K) - 1)), f, 0})); ++n;
+		out.push_back(gen::mk(c, "mt_destroy", {n - 2, 0})); --n;                                      // the operand dies, the projection stays
+		if (n > 6) { out.push_back(gen::mk(c, "mt_destroy", {long(r.below(uint64_t(n - 1))), 0})); --n; }
+	}
+	return out;
+}
+
 } // namespace
 
 namespace vsim {
@@ -327,8 +358,9 @@ static void finish(Plan& p, Rng& r, std::vector<std::vector<Step>>& progs, int a
 Plan plan_C17(Rng& r, const std::string&) {
 	Plan p; p.env = gen::gen_env(r); int ncl = r.range(1, 3), K = r.range(1, 6); bool listed = r.chance(1, 4);
 	std::vector<std::vector<Step>> progs;
-	for (int c = 0; c < ncl; ++c) progs.push_back(mt_program(r, c, r.range(6, 24), K, listed, c > 0 && r.chance(1, 2)));
-	finish(p, r, progs, 20);
+	bool loop = r.chance(1, 4); if (loop && r.chance(2, 3)) p.env.reuse = simheap::R_LIFO;
+	for (int c = 0; c < ncl; ++c) progs.push_back(loop && c == 0 ? mt_project_loop(r, c, r.range(10, 40), r.range(2, 4)) : mt_program(r, c, r.range(6, 24), K, listed, c > 0 && r.chance(1, 2)));
+	finish(p, r, progs, loop ? 0 : 20);
 	return p;
 }
 
